@@ -461,6 +461,35 @@ class CShapes:
         self.rejected = None
         self.where = where
         self.fields = {}
+        self.returned = False
+        self.returns = []
+        self.resolver = None    # name -> FunctionDef of a private helper method (set by the rule)
+        self.depth = 0
+
+    def call_helper(self, fn_node, args, kw, node):
+        """Interpret a private helper with the argument values of this configuration."""
+        sub = CShapes({}, None)
+        sub.fields = self.fields
+        sub.problems = self.problems
+        sub.resolver = self.resolver
+        sub.depth = self.depth + 1
+        params = [a.arg for a in fn_node.args.args]
+        is_static = any(norm(d) == "staticmethod" for d in fn_node.decorator_list)
+        if not is_static and params and params[0] in ("self", "cls"):
+            params = params[1:]
+        for p_, v_ in zip(params, args):
+            sub.env[p_] = v_
+        for k_, v_ in kw.items():
+            sub.env[k_] = self.ev(v_)
+        body = [s_ for s_ in fn_node.body if not (isinstance(s_, ast.Expr) and isinstance(s_.value, ast.Constant))]
+        sub.run(body)
+        if sub.rejected is not None and not sub.returns:
+            self.rejected = sub.rejected
+            return UNKNOWN
+        vals = [v for v in sub.returns]
+        if vals and all(v == vals[0] for v in vals):
+            return vals[0]
+        return UNKNOWN
 
     # -------------------------------------------------------------- helpers
     @staticmethod
@@ -678,6 +707,11 @@ class CShapes:
         fn = norm(e.func)
         args = [self.ev(a) for a in e.args]
         kw = {k.arg: k.value for k in e.keywords}
+        if self.resolver is not None and isinstance(e.func, ast.Attribute) and isinstance(e.func.value, ast.Name) and \
+                e.func.attr.startswith("_") and not e.func.attr.startswith("__") and self.depth < 3:
+            hf = self.resolver(e.func.value.id, e.func.attr)
+            if hf is not None:
+                return self.call_helper(hf, args, kw, e)
         if fn in ("np.zeros", "np.ones", "np.empty") and args:
             a = args[0]
             if a[0] == "shape":
@@ -795,7 +829,7 @@ class CShapes:
     # -------------------------------------------------------------- statements
     def run(self, body):
         for s in body:
-            if self.rejected is not None:
+            if self.rejected is not None or self.returned:
                 return
             self.stmt(s)
 
@@ -837,11 +871,19 @@ class CShapes:
                 saved = (dict(self.env), dict(self.fields))
                 self.run(s.body)
                 r1 = self.rejected
+                ret1 = self.returned
                 e1 = (self.env, self.fields)
                 self.rejected = None
+                self.returned = False
                 self.env, self.fields = dict(saved[0]), dict(saved[1])
                 self.run(s.orelse)
-                if self.rejected is not None and r1 is None:
+                ret2 = self.returned
+                self.returned = ret1 and ret2
+                if ret1 and not ret2 and r1 is None:
+                    pass      # only the else side falls through: keep its state
+                elif ret2 and not ret1 and self.rejected is None:
+                    self.env, self.fields = e1
+                elif self.rejected is not None and r1 is None:
                     self.rejected = None
                     self.env, self.fields = e1
                 elif r1 is not None and self.rejected is None:
@@ -860,7 +902,9 @@ class CShapes:
         elif isinstance(s, ast.Expr):
             self.ev(s.value)
         elif isinstance(s, ast.Return):
-            self.rejected = self.rejected
+            if s.value is not None:
+                self.returns.append(self.ev(s.value))
+            self.returned = True
 
 
 # --------------------------------------------------------------------------------------------
